@@ -159,6 +159,18 @@ func (s *Scheme) KeyGen(ctx context.Context, totalParties, threshold int) ([]byt
 
 	membership := computeMembership(s.Membership())
 
+	if err := s.validateMembership(membership); err != nil {
+		return nil, err
+	}
+
+	if totalParties < 1 {
+		return nil, fmt.Errorf("total parties (%d) must be positive", totalParties)
+	}
+
+	if threshold < 1 || threshold > totalParties {
+		return nil, fmt.Errorf("threshold (%d) must be between 1 and the total parties (%d)", threshold, totalParties)
+	}
+
 	s.Logger.Infof("Membership:\n%s", membership)
 
 	if err := s.ensureDKGNotRunning(); err != nil {
@@ -190,6 +202,14 @@ func (s *Scheme) KeyGen(ctx context.Context, totalParties, threshold int) ([]byt
 	data, parties, err := s.runDKG(ctx, membership, dkgProtocolInstance, sync, dkgTopicHash, totalParties, threshold)
 	s.Logger.Infof("DKG completed with parties %v", parties)
 	return data, err
+}
+
+// validateMembership ensures we are part of the membership, otherwise we cannot take part in any protocol
+func (s *Scheme) validateMembership(membership *membership) error {
+	if _, exists := membership.uID2PID[s.SelfID]; !exists {
+		return fmt.Errorf("node %d is not part of the membership", s.SelfID)
+	}
+	return nil
 }
 
 type membership struct {
@@ -275,6 +295,11 @@ func (s *Scheme) runDKG(ctx context.Context, membership *membership, dkgProtocol
 	defer cancel()
 
 	callback := func(members []uint16) {
+		if len(members) != n {
+			resultChan <- mpcResult{err: fmt.Errorf("expected %d parties but %d were selected: %v", n, len(members), members)}
+			return
+		}
+
 		universalIds := UIntsToUniversalIDs(members)
 		parties, err := membership.partyIDsByUniversalIDs(universalIds)
 		if err != nil {
@@ -450,6 +475,14 @@ func (s *Scheme) Sign(c context.Context, msgHash []byte, topic string) ([]byte, 
 	s.setupOnce.Do(s.setup)
 
 	membership := computeMembership(s.Membership())
+
+	if err := s.validateMembership(membership); err != nil {
+		return nil, err
+	}
+
+	if s.Threshold < 0 {
+		return nil, fmt.Errorf("threshold (%d) must not be negative", s.Threshold)
+	}
 
 	topicHash := hash([]byte(topic))
 	topicHashText := hex.EncodeToString(topicHash)
